@@ -51,8 +51,10 @@ PROPS["C03"] = {
     "thorough": {"cases": 400000, "ceiling_s": 3000},
     "rule": ("G_noise texts over 0..255 (NUL included: explicit-range entry point); every prefix is a sub-case. Non-trivial = the text is rejected after its first character, "
              "or a split point falls inside a multi-character token (pct triplet, IP literal, after ':' or '.'), or an allocation failure hit at k >= 2; distinct by text"
-             " Each split point and tail goes through the single-call entry (recording manager) and the state-based entry uriParseUriEx (default manager; nothing may be outstanding right at its failing return, before any cleanup); allocation faults are enumerated for both."),
+             " Each split point and tail goes through the single-call entry (recording manager) and the state-based entry uriParseUriEx (default manager; nothing may be outstanding right at its failing return, before any cleanup); allocation faults are enumerated for both."
+             " Fixed probes: ranges of INT_MAX+1, INT_MAX+4096 and 2*INT_MAX characters (a never-touched read-only mapping of zero pages whose first character is a syntax error) through both entries and character types."),
     "assumptions": ["texts longer than 300 characters are not generated"],
+    "enumerate": {"huge_ranges": "3 range lengths beyond INT_MAX x 2 entry points x 2 character types (fixed probes, not sampled)"},
 }
 
 PROPS["C04"] = {
@@ -148,7 +150,8 @@ PROPS["C10"] = {
              "rooted vs rootless 6%, other scheme 8%, unrelated path 12%, non-absolute 6%; '.'/'..' segments in 15%; both modes; both managers; both character types. "
              "Non-trivial = same scheme and same host presence/text (the relative branch is reachable); distinct by (S, B, mode)"
              " Schemes related by extension/prefix in the other-scheme class; IP hosts differing in one half/octet; with the recording manager a quarter of the calls have their k-th allocation fail once. Enumerated domain: every (source, base) pair of absolute URIs of the bounded domain x both modes."
-             " S / B are made owner before the call in 25% / 17%; after the reference and the way back have been released S and B must be unchanged and releasable (ASan). Base queries include the empty query."),
+             " S / B are made owner before the call in 25% / 17%; after the reference and the way back have been released S and B must be unchanged and releasable (ASan). Base queries include the empty query."
+             " One case in ten shares memory between the operands: B parsed from a prefix view of S's own buffer (S = B + a few characters), or one object passed as source and base. In long mode a third of the bases lie 250-300 directories deep."),
     "assumptions": ["when both S and B lack a scheme either error code is accepted"],
     "enumerate": {"pairs": "every ordered pair of absolute URIs (schemes s|t, authority none|//h|//g|//u@h:1, path <= 2 (quick) / 3 (thorough) segments over {a, '', ., .., b:c}, rooted and rootless, query none|?q) x both modes"},
 }
@@ -215,7 +218,8 @@ PROPS["C17"] = {
     "thorough": {"cases": 120000, "ceiling_s": 3000},
     "rule": ("lists of 1-6 items, keys/values over 1..255 from chunks (%, %41, +, space, CR, LF, CRLF, &, =, ==, #, 0x80 ...), value NULL in 1/4, empty key in 1/6; both flags, four break modes, "
              "both managers, itemCount NULL in 1/3, plain API in 1/4; 1/40 of the cases are 'huge'. Non-trivial = >= 2 items, at least one NULL/empty value or empty key or a character that "
-             "needs escaping, and a capacity strictly inside (0, R]; or a huge list; distinct by case"),
+             "needs escaping, and a capacity strictly inside (0, R]; or a huge list; distinct by case"
+             " One case in eight passes a non-zero value other than URI_TRUE for a compose flag; only the reading-independent clauses are asserted then."),
     "assumptions": ["lists with embedded NUL cannot be expressed through the API"],
 }
 
@@ -248,7 +252,8 @@ PROPS["C14"] = {
     "rule": ("operations weighted normalise 21%, resolve 16%, create reference 16%, parse 11%, make owner 11%, dissect 11%, normalise-resolved 11%, compose 5%; inputs from G_uri / correlated pairs; "
              "for each: all k in 1..n x {fail-once, fail-from} + one non-biting plan + up to 8 random masks, both character types. Non-trivial = the call makes >= 2 requests (so some k >= 2 hits after "
              "something was built); distinct by case (each covers all its plans)"
-             " One case in four runs with a manager completed by uriCompleteMemoryManager from a malloc/free-only recording backend (the library's calloc sites then go through the emulation)."),
+             " One case in four runs with a manager completed by uriCompleteMemoryManager from a malloc/free-only recording backend (the library's calloc sites then go through the emulation)."
+             " The dissect operation passes itemCount as NULL in half of its cases."),
     "assumptions": [],
 }
 
@@ -263,7 +268,8 @@ PROPS["C15"] = {
     "quick": {"cases": 90000},
     "thorough": {"cases": 1000000, "ceiling_s": 3000},
     "rule": ("sequences of 1-40 ops: realloc 29%, malloc 24%, free 19%, calloc 14%, reallocarray 14%; pointer argument NULL in 1/8; fault mask on the first 40 backend requests in half of the sequences. "
-             "Non-trivial = >= 3 live blocks at some point and a grow after a shrink or a backend failure during growth; distinct by sequence"),
+             "Non-trivial = >= 3 live blocks at some point and a grow after a shrink or a backend failure during growth; distinct by sequence"
+             " Two managers completed from two different backends live side by side (a block returns to the manager that made it; each backend's ledger must match); sizes include 70 000 - 270 000 byte blocks."),
     "assumptions": [],
 }
 
@@ -293,12 +299,13 @@ PROPS["C13"] = {
                    "(and the libc ledger) is back to zero; repeated uriFreeUriMembersMm is harmless. All 31 incomplete managers are rejected by all nine ...Mm entry points with the dedicated code "
                    "before any request reaches them and without touching the URI."),
     "level_note": "Trusted: the recording managers, the symbol redirection (verified by the NULL-manager ledger moving), ASan/LSan.",
-    "enumerate": {"incomplete_managers": "all 31 proper subsets of {malloc, calloc, realloc, reallocarray, free} x 9 ...Mm entry points x 2 character types, plus uriCompleteMemoryManager on each"},
+    "enumerate": {"incomplete_managers": "all 31 proper subsets of {malloc, calloc, realloc, reallocarray, free} x 9 ...Mm entry points x 2 character types x 3 operand states (parsed / owner / owner through partial normalisation), plus uriCompleteMemoryManager on each"},
     "quick": {"cases": 75000},
     "thorough": {"cases": 600000, "ceiling_s": 3000},
     "rule": ("histories of 2 parses + 1..8 steps + 0..2 dissect/compose/free-list steps, manager chosen per step among {NULL, A, B, completed}; both character types. Non-trivial = >= 3 manager-taking "
              "calls on >= 2 objects; distinct by history (incomplete-manager combinations counted separately)"
-             " For a quarter of the steps the j-th request of that call fails once, whichever manager serves it; all ledger invariants are checked regardless of the return code."),
+             " For a quarter of the steps the j-th request of that call fails once, whichever manager serves it; all ledger invariants are checked regardless of the return code."
+             " The incomplete-manager enumeration runs in three operand states: freshly parsed, made owner, owner through a partial normalisation."),
     "assumptions": ["an object is always released with the manager that built it"],
 }
 
